@@ -65,6 +65,14 @@ def build_pandas(c, F, rng_seed):
             checks.append(pa.Check(lambda s, F=F: (F.hit("check-vec"), s == s)[1]))
         elif kind == "agg":
             checks.append(pa.Check(lambda s, F=F: (F.hit("check-agg"), True)[1]))
+        elif kind == "groupby":
+            # the function receives the dict of groups of another column (named, or through a callable)
+            others = [sp["name"] for j, sp in enumerate(S["columns"]) if j != i and sp["regex"] is None
+                      and any(fc["name"] == sp["name"] for fc in c["frame"]["cols"])]
+            if others:
+                key = others[0]
+                gb = key if (c.get("groupby_callable") is not True) else (lambda df, key=key: df.groupby(key))
+                checks.append(pa.Check(lambda d, F=F: (F.hit("check-groupby"), True)[1], groupby=gb))
         parsers = []
         if c["parsers"][i]:
             parsers.append(pa.Parser(lambda s, F=F: (F.hit("parser"), s)[1]))
@@ -93,7 +101,8 @@ def gen_fault_case(rng):
     S = c["schema"]
     S["unique"] = []
     n = len(S["columns"])
-    c["callbacks"] = [rng.choice([None, "elem", "vec", "agg"]) for _ in range(n)]
+    c["callbacks"] = [rng.choice([None, "elem", "vec", "agg", "groupby"]) for _ in range(n)]
+    c["groupby_callable"] = rng.random() < 0.3
     c["parsers"] = [rng.random() < 0.2 for _ in range(n)]
     c["frame_callback"] = rng.choice([None, "frame"])
     c["frame_parser"] = rng.random() < 0.15
@@ -215,7 +224,8 @@ def run_faults(rep, cases):
 
 
 def judge(rep, c, k, r, kind=None, exc_kind="Marker"):
-    case = {kk: c[kk] for kk in ("schema", "frame", "callbacks", "parsers", "frame_callback", "frame_parser", "lazy")}
+    case = {kk: c.get(kk) for kk in ("schema", "frame", "callbacks", "parsers", "frame_callback", "frame_parser", "lazy",
+                                     "groupby_callable")}
     case["fault_at"] = k
     case["fault_class"] = exc_kind
     o = r["outcome"]
